@@ -576,3 +576,58 @@ func c09CorrPktBody(c *hx.Ctx) {
 		c.Count("corr:pktbody:" + strings.Fields(line)[0])
 	}
 }
+
+// j2kDegenerateGeometry (operator `j2k-degenerate-geometry`): tiny streams (under 200 bytes) declaring extreme aspect ratios at
+// S = 10^6 — 1 x 1,000,000, 1,000,000 x 1, 2 x 500,000, … — with one empty tile-part, for the smallest and the default
+// code-block size and 0 / 1 / 5 / 32 decomposition levels.  The number of code-block POSITIONS is then as large as it can
+// be for the declared sample count (250,000 4x4 blocks of one sample row each): memory that follows the code-block count
+// instead of the sample count (tens of KiB per position: gigabytes) exceeds the budget of 576 MB here; the current tree
+// needs well under a second of CPU and about 130 MB.  (At S = 4·10^6 the same shapes need 2.5 s and 460–565 MB when the
+// machine is idle, and several times that CPU time under memory-bandwidth contention: too close to the budget for a check
+// that must never alarm on the unchanged tree.)
+func (b *c08Builder) j2kDegenerateGeometry() {
+	be16 := func(v int) []byte { return []byte{byte(v >> 8), byte(v)} }
+	be32 := func(v int) []byte { x := make([]byte, 4); binary.BigEndian.PutUint32(x, uint32(v)); return x }
+	seg := func(m byte, p []byte) []byte { return append(append([]byte{0xFF, m}, be16(len(p)+2)...), p...) }
+	mk := func(w, h, comps, levels, cbw, cbh int) []byte {
+		s := []byte{0xFF, 0x4F}
+		siz := be16(0)
+		for _, v := range []int{w, h, 0, 0, w, h, 0, 0} {
+			siz = append(siz, be32(v)...)
+		}
+		siz = append(siz, be16(comps)...)
+		for c := 0; c < comps; c++ {
+			siz = append(siz, 7, 1, 1)
+		}
+		s = append(s, seg(0x51, siz)...)
+		s = append(s, seg(0x52, []byte{0, 0, 0, 1, 0, byte(levels), byte(cbw), byte(cbh), 0, 1})...)
+		q := []byte{0x40}
+		for i := 0; i < 3*levels+1; i++ {
+			q = append(q, 0x40)
+		}
+		s = append(s, seg(0x5C, q)...)
+		sot := append(be16(0), be32(14)...)
+		s = append(s, seg(0x90, append(sot, 0, 1))...)
+		return append(s, 0xFF, 0x93, 0xFF, 0xD9)
+	}
+	tj, th := c08TargetIdx("j2k"), c08TargetIdx("htj2k")
+	shapes := [][3]int{{1, 1000000, 1}, {1000000, 1, 1}}
+	cbs := [][2]int{{0, 0}, {4, 4}}
+	levels := []int{0, 5}
+	if b.c.Thorough() {
+		shapes = append(shapes, [3]int{2, 500000, 1}, [3]int{500000, 2, 1}, [3]int{1000, 1000, 1}, [3]int{1, 333333, 3}, [3]int{1048576, 1, 1})
+		cbs = append(cbs, [2]int{8, 0}, [2]int{0, 8})
+		levels = []int{0, 1, 5, 32}
+	}
+	for _, sh := range shapes {
+		for _, cb := range cbs {
+			for _, lv := range levels {
+				s := mk(sh[0], sh[1], sh[2], lv, cb[0], cb[1])
+				b.add(tj, [5]uint16{}, s, "j2k-degenerate-geometry", fmt.Sprintf("%dx%dx%d", sh[0], sh[1], sh[2]))
+				if lv == 0 && cb[0] == 0 {
+					b.add(th, [5]uint16{}, s, "j2k-degenerate-geometry", fmt.Sprintf("%dx%dx%d", sh[0], sh[1], sh[2]))
+				}
+			}
+		}
+	}
+}
